@@ -19,7 +19,7 @@ EXTENDS Naturals, Sequences, FiniteSets, TLC, SequencesExt
 Lower(s) == CASE s = "EXAMPLE.com" -> "example.com" [] s = "Example.COM" -> "example.com"
               [] s = "AB.example.com" -> "ab.example.com"
               [] s = "V" -> "v" [] s = "xVx" -> "xvx"
-              [] s = "/A" -> "/a" [] s = "/X/AB" -> "/x/ab" [] s = "/x/AB" -> "/x/ab" [] s = "/X/ab" -> "/x/ab" [] s = "/X/ab/y" -> "/x/ab/y"
+              [] s = "/X/y/ab" -> "/x/y/ab" [] s = "/A" -> "/a" [] s = "/X/AB" -> "/x/ab" [] s = "/x/AB" -> "/x/ab" [] s = "/X/ab" -> "/x/ab" [] s = "/X/ab/y" -> "/x/ab/y"
               [] s = "X-K" -> "x-k" [] s = "X-J" -> "x-j"
               [] s = "K-AB" -> "k-ab" [] s = "K-ab" -> "k-ab" [] s = "K-@m" -> "k-@m"
               [] OTHER -> s
@@ -35,6 +35,8 @@ DynPathMatches(ic, pat, p) ==
     \* ("/X/@n" is the same expression with the marker under another name: only captures differ)
     [] pat \in {"/X/@m", "/X/@n"} -> IF ic THEN x \in {"/x/ab", "/x/a"} ELSE p \in {"/X/ab"}
     [] pat = "/X/@m/y" -> IF ic THEN x \in {"/x/ab/y"} ELSE p \in {"/X/ab/y"}
+    \* a sibling of "/X/@m" that leaves a purely literal tree node "/X/" (no expression in the node prefix)
+    [] pat = "/X/y/@m" -> IF ic THEN x \in {"/x/y/ab"} ELSE p \in {"/X/y/ab"}
     [] OTHER -> FALSE
 
 \* networks and addresses
